@@ -16,7 +16,7 @@ package spi
 //@ func (wrapper).validateKID
 //@   prop C03
 //@   modifies nothing
-//@   ensures [nil-iff-name-matches] isNilIface(result) <==> w.kidPattern.MatchString(kid)
+//@   ensures [nil-iff-name-matches-and-is-no-dot-name] isNilIface(result) <==> w.kidPattern.MatchString(kid) && kid != "." && kid != ".."
 
 //@ func (wrapper).GetPrivateKey
 //@   prop C03
